@@ -163,6 +163,7 @@ func check(prop, tier, only, repoDir, verifDir string, workers, par, seed int, d
 	replayDir := filepath.Join(verifDir, "replays", prop)
 	var samples []obSummary
 	nOb, nDis, nViol, nKnown, nInc, nReach, nReachOK := 0, 0, 0, 0, 0, 0, 0
+	nHunt := 0
 	distinct := map[string]bool{}
 	funcs := map[string]int{}
 	stubs := map[string]bool{}
@@ -212,7 +213,11 @@ func check(prop, tier, only, repoDir, verifDir string, workers, par, seed int, d
 				}
 				continue
 			}
-			nOb++
+			if ob.Hunt && ob.Result != "sat" && ob.Result != "unsat" {
+				// not counted as an obligation: it can only ever report a counterexample
+			} else {
+				nOb++
+			}
 			if ob.Solver != "trivial" {
 				h := sha1.Sum([]byte(ob.Script))
 				distinct[fmt.Sprintf("%x", h[:8])] = true
@@ -221,6 +226,9 @@ func check(prop, tier, only, repoDir, verifDir string, workers, par, seed int, d
 			case "unsat":
 				nDis++
 				sum.Verdict = "holds"
+				if ob.Hunt {
+					nHunt++
+				}
 			case "sat":
 				if reproduced[ob.Label] {
 					sum.Verdict = "violated(same label already reproduced)"
@@ -262,6 +270,11 @@ func check(prop, tier, only, repoDir, verifDir string, workers, par, seed int, d
 					fmt.Println(msg)
 				}
 			default:
+				if ob.Hunt {
+					nHunt++
+					sum.Verdict = "hunt: no counterexample found (proof by sibling harness)"
+					break
+				}
 				nInc++
 				sum.Verdict = "unknown"
 				msg := fmt.Sprintf("INCONCLUSIVE property=%s harness=%s obligation=%s solver=unknown/timeout (%d ms)", prop, hr.Spec.Name, ob.Label, ob.Ms)
@@ -361,6 +374,7 @@ func check(prop, tier, only, repoDir, verifDir string, workers, par, seed int, d
 				"discharged":                    nDis,
 				"inconclusive":                  nInc,
 				"known_findings_reproduced":     nKnown,
+				"bug_hunting_queries_without_counterexample": nHunt,
 				"evaluations":                   nOb + nReach,
 				"distinct_nontrivial":           len(distinct),
 				"rule":                          "one evaluation = one solver obligation (pc ∧ ¬property) or vacuity witness; distinct_nontrivial counts distinct SMT scripts (sha1) that were not decided by constant folding; states = symbolic paths executed; transitions = SSA instructions interpreted",
